@@ -62,57 +62,69 @@ Section Sched.
   Lemma sel cd cur done recv : selected mag0 pn0 (mkPbuf cd cur done mag0 pn0 recv).
   Proof. repeat split. exact mag0_nz. Qed.
 
-  Lemma body_run : forall body rows cd q done, body_ok mag0 pn0 rows body = true ->
+  Lemma body_run : forall body rows cd q done, cdn cd -> body_ok mag0 pn0 rows body = true ->
+    exists cd', cdn cd' /\
     run (mkPbuf cd (Some q) done mag0 pn0 true) (map (fun x => (fst x, snd (snd x))) body)
-    = Ok (mkPbuf cd (Some (add_rows q rows)) done mag0 pn0 true).
+    = Ok (mkPbuf cd' (Some (add_rows q rows)) done mag0 pn0 true).
   Proof.
-    induction body as [|[t [[|] u]] r IH]; intros rows cd q done Hok; cbn [body_ok] in Hok.
-    - destruct rows; [|discriminate]. cbn [map run]. unfold add_rows. cbn [map rev app]. rewrite app_nil_r. destruct q; reflexivity.
+    induction body as [|[t [[|] u]] r IH]; intros rows cd q done Hcd Hok; cbn [body_ok] in Hok.
+    - destruct rows; [|discriminate]. exists cd. split; [exact Hcd|]. cbn [map run]. unfold add_rows. cbn [map rev app]. rewrite app_nil_r. destruct q; reflexivity.
     - destruct rows as [|[row sp] rs]; [discriminate|]. apply andb_true_iff in Hok. destruct Hok as [Hrow Hr].
       cbn [map run]. unfold run_unit. cbn [fst snd].
       rewrite (row_step_ours mag0 pn0 row (row_cells sp) u t _ q (sel _ _ _ _) eq_refl eq_refl Hrow). cbn [bind pb_cd pb_done pb_mag pb_page].
-      rewrite (IH rs _ _ _ Hr). unfold add_rows. cbn [pg_cs pg_data pg_rows pg_start pg_end map rev row_data fst snd].
+      destruct (IH rs cd (mkTpage (pg_cs q) ((row, row_cells sp) :: pg_data q) (pg_rows q ++ [row]) (pg_start q) (pg_end q)) done Hcd Hr) as (cd' & Hcd' & E). exists cd'. split; [exact Hcd'|]. rewrite E.
+      unfold add_rows. cbn [pg_cs pg_data pg_rows pg_start pg_end map rev row_data fst snd].
       rewrite <- !app_assoc. reflexivity.
     - apply andb_true_iff in Hok. destruct Hok as [Hb Hr]. cbn [map run]. unfold run_unit. cbn [fst snd].
-      rewrite (benign_step mag0 pn0 u t _ (sel _ _ _ _) Hb). cbn [bind]. apply IH. exact Hr.
+      apply orb_true_iff in Hb. destruct Hb as [Hb|Hb].
+      + rewrite (benign_step mag0 pn0 u t _ (sel _ _ _ _) Hb). cbn [bind]. apply IH; assumption.
+      + destruct (neutral_step mag0 pn0 u t cd (Some q) done true mag0_nz Hcd Hb) as (cd1 & Hcd1 & E1). rewrite E1. cbn [bind].
+        apply IH; assumption.
   Qed.
 
-  Lemma dead_run : forall dead cd cur done, forallb (fun x : tunit => dead_ok mag0 pn0 (snd x)) dead = true ->
-    run (mkPbuf cd cur done mag0 pn0 false) dead = Ok (mkPbuf cd cur done mag0 pn0 false).
+  Lemma dead_run : forall dead cd cur done, cdn cd ->
+    forallb (fun x : tunit => dead_ok mag0 pn0 (snd x) || neutral_unit mag0 (snd x)) dead = true ->
+    exists cd', cdn cd' /\ run (mkPbuf cd cur done mag0 pn0 false) dead = Ok (mkPbuf cd' cur done mag0 pn0 false).
   Proof.
-    induction dead as [|[t u] r IH]; intros cd cur done H; cbn [run]; [reflexivity|].
+    induction dead as [|[t u] r IH]; intros cd cur done Hcd H; cbn [run]; [exists cd; split; [exact Hcd | reflexivity]|].
     cbn [forallb snd] in H. apply andb_true_iff in H. destruct H as [Hu Hr]. unfold run_unit. cbn [fst snd].
-    rewrite (dead_step mag0 pn0 u t _ (sel _ _ _ _) eq_refl Hu). cbn [bind]. apply IH. exact Hr.
+    apply orb_true_iff in Hu. destruct Hu as [Hu|Hu].
+    - rewrite (dead_step mag0 pn0 u t _ (sel _ _ _ _) eq_refl Hu). cbn [bind]. apply IH; assumption.
+    - destruct (neutral_step mag0 pn0 u t cd cur done false mag0_nz Hcd Hu) as (cd1 & Hcd1 & E1). rewrite E1. cbn [bind]. apply IH; assumption.
   Qed.
 
   Definition tail_events (m : imux) : list tunit := match im_tail m with Some (tm, dead) => tm :: dead | None => [] end.
 
   (* what follows the header of an instance *)
-  Lemma after_header_run i m cd done : inst_mux_ok mag0 pn0 (i, m) = true ->
-    exists recv', run (mkPbuf cd (Some (new_page (i_cs i) (i_t i))) done mag0 pn0 true)
+  Lemma after_header_run i m cd done : cdn cd -> inst_mux_ok mag0 pn0 (i, m) = true ->
+    exists recv' cd', cdn cd' /\
+                  run (mkPbuf cd (Some (new_page (i_cs i) (i_t i))) done mag0 pn0 true)
                       (map (fun x => (fst x, snd (snd x))) (im_body m) ++ tail_events m)
-                  = Ok (mkPbuf cd (Some (page_of i)) done mag0 pn0 recv').
+                  = Ok (mkPbuf cd' (Some (page_of i)) done mag0 pn0 recv').
   Proof.
-    intros Hok. unfold inst_mux_ok in Hok. repeat (apply andb_true_iff in Hok; destruct Hok as [Hok ?]).
+    intros Hcd Hok. unfold inst_mux_ok in Hok. repeat (apply andb_true_iff in Hok; destruct Hok as [Hok ?]).
     match goal with H : body_ok _ _ _ _ = true |- _ => rename H into Hbody end.
     match goal with H : match im_tail m with _ => _ end = true |- _ => rename H into Htail end.
-    rewrite run_app. rewrite (body_run _ _ _ _ _ Hbody). cbn [bind]. fold (page_of i).
+    rewrite run_app. destruct (body_run _ _ cd (new_page (i_cs i) (i_t i)) done Hcd Hbody) as (cd1 & Hcd1 & E1).
+    rewrite E1. cbn [bind]. fold (page_of i).
     unfold tail_events. destruct (im_tail m) as [[[tt tu] dead]|].
     - apply andb_true_iff in Htail. destruct Htail as [Ht Hd]. cbn [snd] in Ht. cbn [run]. unfold run_unit. cbn [fst snd].
       rewrite (term_step mag0 pn0 tu tt _ (sel _ _ _ _) eq_refl Ht). cbn [bind pb_cd pb_cur pb_done pb_mag pb_page].
-      rewrite (dead_run _ _ _ _ Hd). exists false. reflexivity.
-    - exists true. reflexivity.
+      destruct (dead_run dead cd1 (Some (page_of i)) done Hcd1 Hd) as (cd2 & Hcd2 & E2).
+      exists false, cd2. split; [exact Hcd2 | exact E2].
+    - exists true, cd1. split; [exact Hcd1 | reflexivity].
   Qed.
 
-  Lemma inst_run i m cd cur done recv : inst_mux_ok mag0 pn0 (i, m) = true ->
-    exists recv', run (mkPbuf cd cur done mag0 pn0 recv) (inst_events (i, m))
-                  = Ok (mkPbuf cd (Some (page_of i)) (done ++ close cur (i_t i)) mag0 pn0 recv').
+  Lemma inst_run i m cd cur done recv : cdn cd -> inst_mux_ok mag0 pn0 (i, m) = true ->
+    exists recv' cd', cdn cd' /\
+                  run (mkPbuf cd cur done mag0 pn0 recv) (inst_events (i, m))
+                  = Ok (mkPbuf cd' (Some (page_of i)) (done ++ close cur (i_t i)) mag0 pn0 recv').
   Proof.
-    intros Hok. pose proof Hok as Hok'. unfold inst_mux_ok in Hok'. repeat (apply andb_true_iff in Hok'; destruct Hok' as [Hok' ?]).
+    intros Hcd Hok. pose proof Hok as Hok'. unfold inst_mux_ok in Hok'. repeat (apply andb_true_iff in Hok'; destruct Hok' as [Hok' ?]).
     unfold inst_events. cbn [run]. unfold run_unit. cbn [fst snd].
     rewrite (header_step mag0 pn0 (i_cs i) (im_hdr m) (i_t i) _ (sel _ _ _ _) Hok'). cbn [bind pb_cd pb_cur pb_done pb_mag pb_page].
-    destruct (after_header_run i m cd (done ++ close cur (i_t i)) Hok) as (recv' & E).
-    exists recv'. unfold tail_events in E. rewrite <- E. f_equal. f_equal. destruct cur; cbn [close]; [reflexivity | rewrite app_nil_r; reflexivity].
+    destruct (after_header_run i m cd (done ++ close cur (i_t i)) Hcd Hok) as (recv' & cd' & Hcd' & E).
+    exists recv', cd'. split; [exact Hcd'|]. unfold tail_events in E. rewrite <- E. f_equal. f_equal. destruct cur; cbn [close]; [reflexivity | rewrite app_nil_r; reflexivity].
   Qed.
 
   Fixpoint closed (cur : option tpage) (l : list inst) : list tpage :=
@@ -120,15 +132,16 @@ Section Sched.
   Fixpoint final_cur (cur : option tpage) (l : list inst) : option tpage :=
     match l with [] => cur | i :: r => final_cur (Some (page_of i)) r end.
 
-  Lemma insts_run : forall ims cd cur done recv, forallb (inst_mux_ok mag0 pn0) ims = true ->
-    exists recv', run (mkPbuf cd cur done mag0 pn0 recv) (flat_map inst_events ims)
-                  = Ok (mkPbuf cd (final_cur cur (map fst ims)) (done ++ closed cur (map fst ims)) mag0 pn0 recv').
+  Lemma insts_run : forall ims cd cur done recv, cdn cd -> forallb (inst_mux_ok mag0 pn0) ims = true ->
+    exists recv' cd', cdn cd' /\
+                  run (mkPbuf cd cur done mag0 pn0 recv) (flat_map inst_events ims)
+                  = Ok (mkPbuf cd' (final_cur cur (map fst ims)) (done ++ closed cur (map fst ims)) mag0 pn0 recv').
   Proof.
-    induction ims as [|[i m] r IH]; intros cd cur done recv H.
-    - exists recv. cbn. rewrite app_nil_r. reflexivity.
+    induction ims as [|[i m] r IH]; intros cd cur done recv Hcd H.
+    - exists recv, cd. split; [exact Hcd|]. cbn. rewrite app_nil_r. reflexivity.
     - cbn [forallb] in H. apply andb_true_iff in H. destruct H as [Hi Hr].
-      cbn [flat_map]. rewrite run_app. destruct (inst_run i m cd cur done recv Hi) as (r1 & E1). rewrite E1. cbn [bind].
-      destruct (IH cd (Some (page_of i)) (done ++ close cur (i_t i)) r1 Hr) as (r2 & E2). exists r2. rewrite E2.
+      cbn [flat_map]. rewrite run_app. destruct (inst_run i m cd cur done recv Hcd Hi) as (r1 & cd1 & Hcd1 & E1). rewrite E1. cbn [bind].
+      destruct (IH cd1 (Some (page_of i)) (done ++ close cur (i_t i)) r1 Hcd1 Hr) as (r2 & cd2 & Hcd2 & E2). exists r2, cd2. split; [exact Hcd2|]. rewrite E2.
       cbn [map fst final_cur closed]. rewrite <- app_assoc. reflexivity.
   Qed.
 End Sched.
@@ -146,23 +159,32 @@ Qed.
 
 (* ---- the pages of a schedule are parsed into its cues ---- *)
 Definition cdinv (d : cdec) : Prop :=
-  cd_x28 d = None /\ cd_m29 d = None /\ length (cd_c d) = 96%nat
+  tkey0 (cd_x28 d) /\ tkey0 (cd_m29 d) /\ length (cd_c d) = 96%nat
   /\ match cd_last d with Some l => cd_c d = g0_table l | None => True end.
 
 Lemma g0_table_ok cs : charset_for 0 cs = Ok (g0_table cs) /\ length (g0_table cs) = 96%nat.
 Proof. unfold g0_table. destruct (charset_for_total 0 cs) as (c & E & L). rewrite E. split; [reflexivity | exact L]. Qed.
 
+Lemma charset_for_key0 t cs : triplet_key t = 0 -> charset_for t cs = charset_for 0 cs.
+Proof. intros H. unfold charset_for. unfold triplet_key in H. rewrite H. reflexivity. Qed.
+
+Lemma cdn_cdinv d : cdn d -> cdinv d.
+Proof. intros (Hl & Hx & Hm & Hc). repeat split; try assumption. - rewrite Hc. reflexivity. - rewrite Hl. exact I. Qed.
+
 Lemma update_charset_inv d cs : cdinv d ->
   exists d', update_charset d (Some cs) false = Ok d' /\ cdinv d' /\ cd_c d' = g0_table cs.
 Proof.
   intros (Hx & Hm & Hl & Hc). unfold update_charset. cbn [negb andb]. rewrite andb_true_r.
+  assert (Hk : triplet_key (match cd_x28 d with Some t => t | None => match cd_m29 d with Some t => t | None => 0 end end) = 0).
+  { destruct (cd_x28 d); [exact Hx|]. destruct (cd_m29 d); [exact Hm | reflexivity]. }
+  assert (Hnew : exists d', (do c <- charset_for (match cd_x28 d with Some t => t | None => match cd_m29 d with Some t => t | None => 0 end end) cs;
+                            Ok (mkCdec c (Some cs) (cd_m29 d) (cd_x28 d))) = Ok d' /\ cdinv d' /\ cd_c d' = g0_table cs).
+  { rewrite (charset_for_key0 _ cs Hk). destruct (g0_table_ok cs) as [E Len]. rewrite E. cbn [bind]. eexists. split; [reflexivity|].
+    split; [|reflexivity]. repeat split; cbn [cd_x28 cd_m29 cd_c cd_last]; try assumption; try reflexivity. }
   destruct (cd_last d) as [l|] eqn:L.
-  - destruct (N.eqb_spec cs l) as [->|Hne].
-    + exists d. split; [reflexivity|]. split; [|exact Hc]. repeat split; try assumption; try (rewrite L; exact Hc).
-    + rewrite Hx, Hm. destruct (g0_table_ok cs) as [E Len]. rewrite E. cbn [bind]. eexists. split; [reflexivity|].
-      split; [|reflexivity]. repeat split; cbn [cd_x28 cd_m29 cd_c cd_last]; try assumption; try reflexivity.
-  - rewrite Hx, Hm. destruct (g0_table_ok cs) as [E Len]. rewrite E. cbn [bind]. eexists. split; [reflexivity|].
-    split; [|reflexivity]. repeat split; cbn [cd_x28 cd_m29 cd_c cd_last]; try assumption; try reflexivity.
+  - destruct (N.eqb_spec cs l) as [->|Hne]; [|exact Hnew].
+    exists d. split; [reflexivity|]. split; [|exact Hc]. repeat split; try assumption; try (rewrite L; exact Hc).
+  - exact Hnew.
 Qed.
 
 Lemma alookup_app {V} k (a b : list (N * V)) :
@@ -285,7 +307,7 @@ Proof.
   destruct Hq as [Hq Hr]. rewrite Hq, Hr. rewrite Z.mod_small by lia. rewrite N2Z.id. reflexivity.
 Qed.
 
-Lemma cdinv0 : cdinv cdec0.
+Lemma cdn0 : cdn cdec0.
 Proof. repeat split. Qed.
 
 (* the end of ttx_feed, from the state of the run *)
@@ -303,19 +325,20 @@ Theorem stream_given_page : forall (s : sched) (m : mux) (peses : list pes),
 Proof.
   intros s m peses Hok Hpes Hflat. unfold mux_ok in Hok. repeat (apply andb_true_iff in Hok; destruct Hok as [Hok ?]).
   match goal with H : forallb (inst_mux_ok _ _) _ = true |- _ => rename H into Hinsts end.
-  match goal with H : forallb (fun x => dead_ok _ _ _) _ = true |- _ => rename H into Hpre end.
+  match goal with H : forallb (fun x => dead_ok _ _ _ || _) _ = true |- _ => rename H into Hpre end.
   match goal with H : Nat.eqb _ _ = true |- _ => apply Nat.eqb_eq in H; rename H into Hlen end.
   repeat match goal with H : (_ <=? _) = true |- _ => apply N.leb_le in H end.
   repeat match goal with H : (_ <=? _)%Z = true |- _ => apply Z.leb_le in H end.
   assert (Hnz : s_mag s <> 0) by lia.
   unfold ttx_feed. rewrite new_pbuf_page by lia.
   (* the run over the events *)
-  destruct (insts_run (s_mag s) (s_pn s) Hnz (combine (s_insts s) (mx_insts m)) cdec0 None [] false Hinsts) as (recv' & Erun).
+  destruct (dead_run (s_mag s) (s_pn s) Hnz (mx_pre m) cdec0 None [] cdn0 Hpre) as (cd0 & Hcd0 & Epre).
+  destruct (insts_run (s_mag s) (s_pn s) Hnz (combine (s_insts s) (mx_insts m)) cd0 None [] false Hcd0 Hinsts) as (recv' & cd1 & Hcd1 & Erun).
   rewrite (map_fst_combine _ _ Hlen) in Erun.
   assert (Hrun : run (add_done [] (mkPbuf cdec0 None [] (s_mag s) (s_pn s) false)) (flat_map pes_units peses)
-                 = Ok (mkPbuf cdec0 (final_cur None (s_insts s)) ([] ++ closed None (s_insts s)) (s_mag s) (s_pn s) recv')).
+                 = Ok (mkPbuf cd1 (final_cur None (s_insts s)) ([] ++ closed None (s_insts s)) (s_mag s) (s_pn s) recv')).
   { rewrite Hflat. unfold events. rewrite run_app. unfold add_done. cbn [pb_cd pb_cur pb_done pb_mag pb_page pb_recv app].
-    rewrite (dead_run (s_mag s) (s_pn s) Hnz _ _ _ _ Hpre). cbn [bind]. exact Erun. }
+    rewrite Epre. cbn [bind]. exact Erun. }
   destruct (feed_run peses (mkFeed (mkPbuf cdec0 None [] (s_mag s) (s_pn s) false) None None []) _ Hpes eq_refl Hrun)
     as (f' & Efeed & Hvb & Hdone & Hfirst & Hlast).
   rewrite Efeed. cbn [bind].
@@ -324,7 +347,7 @@ Proof.
   replace (match pb_cur (f_buf f') with Some p => [page_with_end p (zero_or (f_last f'))] | None => [] end)
     with (close (pb_cur (f_buf f')) (zero_or (f_last f'))) by reflexivity.
   rewrite Hpages, Hcd. cbn [app]. rewrite pages_eq. cbn [close app]. rewrite Hfirst, Hlast.
-  unfold cues_of. apply parse_pages_sched; [exact cdinv0|].
+  unfold cues_of. apply parse_pages_sched; [exact (cdn_cdinv _ Hcd1)|].
   rewrite <- (map_fst_combine (s_insts s) (mx_insts m) Hlen). apply (inst_mux_inst_ok _ _ _ Hinsts).
 Qed.
 
@@ -354,13 +377,13 @@ Proof.
   unfold ttx_feed. change (new_pbuf 0) with (mkPbuf cdec0 None [] 0 0%Z false).
   set (b0 := mkPbuf cdec0 None [] 0 0%Z false).
   assert (Hun : unselected b0) by (repeat split).
-  assert (Hrun : exists recv', run (add_done [] b0) (flat_map pes_units peses)
-                 = Ok (mkPbuf cdec0 (final_cur None (s_insts s)) ([] ++ closed None (s_insts s))
+  assert (Hrun : exists recv' cd1, cdn cd1 /\ run (add_done [] b0) (flat_map pes_units peses)
+                 = Ok (mkPbuf cd1 (final_cur None (s_insts s)) ([] ++ closed None (s_insts s))
                               (match s_insts s with [] => 0 | _ => s_mag s end) (match s_insts s with [] => 0%Z | _ => s_pn s end) recv')).
   { rewrite Hflat. unfold events. rewrite run_app. change (add_done [] b0) with b0.
     rewrite (unselected_run _ b0 Hun Hpre). cbn [bind].
     destruct (s_insts s) as [|i r] eqn:Si; destruct (mx_insts m) as [|im ims] eqn:Mi; cbn [length] in Hlen; try discriminate.
-    - exists false. reflexivity.
+    - exists false, cdec0. split; [exact cdn0 | reflexivity].
     - cbn [combine flat_map forallb] in *. apply andb_true_iff in Hinsts. destruct Hinsts as [Hi Hr].
       pose proof Hi as Hi'. unfold inst_mux_ok in Hi'. repeat (apply andb_true_iff in Hi'; destruct Hi' as [Hi' ?]).
       pose proof Hi' as Hh. unfold is_our_header in Hh.
@@ -370,11 +393,11 @@ Proof.
       destruct (hdr_c6 p) as [[|]|] eqn:C6; try discriminate.
       rewrite run_app. rewrite inst_events_eq. cbn [run]. unfold run_unit. cbn [fst snd].
       rewrite (select_step (s_mag s) (s_pn s) (i_cs i) (im_hdr im) (i_t i) b0 p Hun eq_refl Hi' A C6). cbn [bind pb_cd pb_done].
-      destruct (after_header_run (s_mag s) (s_pn s) Hnz i im cdec0 [] Hi) as (r1 & E1).
-      destruct (insts_run (s_mag s) (s_pn s) Hnz (combine r ims) cdec0 (Some (page_of i)) [] r1 Hr) as (r2 & E2).
-      subst b0. cbn [pb_cd pb_done]. exists r2. rewrite E1. cbn [bind].
+      destruct (after_header_run (s_mag s) (s_pn s) Hnz i im cdec0 [] cdn0 Hi) as (r1 & c1 & Hc1 & E1).
+      destruct (insts_run (s_mag s) (s_pn s) Hnz (combine r ims) c1 (Some (page_of i)) [] r1 Hc1 Hr) as (r2 & c2 & Hc2 & E2).
+      subst b0. cbn [pb_cd pb_done]. exists r2, c2. split; [exact Hc2|]. rewrite E1. cbn [bind].
       rewrite E2. rewrite (map_fst_combine r ims ltac:(lia)). reflexivity. }
-  destruct Hrun as (recv' & Hrun).
+  destruct Hrun as (recv' & cd1 & Hcd1 & Hrun).
   destruct (feed_run peses (mkFeed b0 None None []) _ Hpes eq_refl Hrun) as (f' & Efeed & Hvb & Hdone & Hf & Hl).
   rewrite Efeed. cbn [bind].
   destruct (finish _ _ _ _ f' _ _ Hvb Hdone) as [Hpages Hcd].
@@ -382,6 +405,6 @@ Proof.
   replace (match pb_cur (f_buf f') with Some p => [page_with_end p (zero_or (f_last f'))] | None => [] end)
     with (close (pb_cur (f_buf f')) (zero_or (f_last f'))) by reflexivity.
   rewrite Hpages, Hcd. cbn [app]. rewrite pages_eq. cbn [close app]. rewrite Hf, Hl.
-  unfold cues_of. apply parse_pages_sched; [exact cdinv0|].
+  unfold cues_of. apply parse_pages_sched; [exact (cdn_cdinv _ Hcd1)|].
   rewrite <- (map_fst_combine (s_insts s) (mx_insts m) Hlen). apply (inst_mux_inst_ok _ _ _ Hinsts).
 Qed.
